@@ -172,15 +172,20 @@ fn display_all_exported_vars(
             // All of the variable's attributes are shown (`declare -rx`, `declare -ix`), so that
             // reading the line back restores them.
             let flags = variable.attribute_flags(context.shell);
-            let value = variable.value().try_get_cow_str(context.shell);
-            if let Some(value) = value {
-                // Quote the value the way `declare -p` does, so that the line can be read back.
-                let quoted =
-                    brush_core::escape::force_quote(&value, brush_core::escape::QuoteMode::DoubleQuote);
-                writeln!(context.stdout(), "declare -{flags} {name}={quoted}")?;
+
+            // The value is printed the way `declare -p` prints it, so that the line can be read
+            // back — all elements of an array included.
+            let value = variable.resolve_value(context.shell);
+            let separator = if matches!(value, variables::ShellValue::Unset(_)) {
+                ""
             } else {
-                writeln!(context.stdout(), "declare -{flags} {name}")?;
-            }
+                "="
+            };
+            writeln!(
+                context.stdout(),
+                "declare -{flags} {name}{separator}{}",
+                value.format(variables::FormatStyle::DeclarePrint, context.shell)?
+            )?;
         }
     }
 
